@@ -108,9 +108,19 @@ where
     B: BaseFut,
     H: ElementHasher<BaseField = B> + Sync + Send,
 {
+    prove_aux_delta::<B, H>(spec, main, options, corrupt_aux, 1)
+}
+
+/// as `prove`; the corrupted auxiliary cell is changed by `delta`
+pub fn prove_aux_delta<B, H>(spec: &SpecRef, main: &[Vec<u128>], options: ProofOptions, corrupt_aux: Option<(usize, usize)>, delta: u128) -> ProveOutcome
+where
+    B: BaseFut,
+    H: ElementHasher<BaseField = B> + Sync + Send,
+{
     let r = guard(|| {
         let mut prover = GenProver::<B, H>::new(spec.clone(), options);
         prover.corrupt_aux = corrupt_aux;
+        prover.aux_delta = delta;
         let trace = GenTrace::<B>::new(spec, main);
         #[cfg(not(feature = "async"))]
         let r = prover.prove(trace);
